@@ -135,12 +135,15 @@ Compatible(o, n) == o.res = n.res /\ o.ref = n.ref /\ o.I = n.I
 TReload ==
     /\ IsEvent("reload")
     /\ Ev.t = now
-    /\ \A r \in DOMAIN adm : now \notin DOMAIN adm[r]
     /\ rs' = Ev.rules
     /\ cand' = [i \in 1..Len(Ev.rules) |->
                    LET kept == UNION { { c.since : c \in cand[j] } : j \in { k \in DOMAIN rs : Compatible(rs[k], Ev.rules[i]) } }
                    IN  { [bl |-> d, since |-> s] : d \in Divisors(Ev.rules[i].I), s \in {0, now} \cup kept }]
-    /\ UNCHANGED <<now, adm, g, failed>>
+    \* Scenarios never reload in a millisecond in which the PROPERTY admits a token.  When the real code admitted one there
+    \* all the same (a different - still conforming - bucket geometry, or a deviation that was reported at that request), "recorded
+    \* at or after the reload" can no longer be told from the recorded times: the rest of this trace is not judged.
+    /\ failed' = (failed \/ \E r \in DOMAIN adm : now \in DOMAIN adm[r])
+    /\ UNCHANGED <<now, adm, g>>
 
 ---------------------------------------------------------------------------
 (* k callers inside the admission path at the same time (clock fixed).     *)
